@@ -220,7 +220,7 @@ def check_graph(rec, rng, ctx, ircfg, head, info, case_id):
     for cfg in CONFIGS:
         rec.count("propag_runs:" + cfg)
         try:
-            with cpulimit.cpu_limit(60):
+            with cpulimit.cpu_limit(20):
                 with patched_propagation(cfg == "no-mem-cst", False):
                     works[cfg] = propagate(ctx, ircfg, head)
         except cpulimit.CpuTimeout:
@@ -302,6 +302,7 @@ def check_graph(rec, rng, ctx, ircfg, head, info, case_id):
 
 def run_shard(params, rec):
     common.quiet()
+    common.limit_memory(4)
     from vf.models import cpulimit
     cpulimit.install()
     import pyparsing
